@@ -114,3 +114,102 @@ pub fn hook_inert(v: &Value) -> Value {
     let _ = std::fs::remove_dir_all(&dir);
     json!({"changed": before != after, "before": before, "after": after})
 }
+
+/// K4: {objects: [{oid, content? | missing: true}]}: the real cat-file --batch reader on the text git prints
+pub fn blob_reader(v: &Value) -> Value {
+    let mut data: Vec<u8> = Vec::new();
+    let mut want: Vec<(String, Vec<u8>)> = Vec::new();
+    for o in v["objects"].as_array().unwrap() {
+        let oid = o["oid"].as_str().unwrap().to_string();
+        if o["missing"].as_bool().unwrap_or(false) {
+            data.extend(format!("{oid} missing\n").as_bytes());
+            continue;
+        }
+        let body = crate::bytes_of(&o["content"]);
+        data.extend(format!("{oid} blob {}\n", body.len()).as_bytes());
+        data.extend(&body);
+        data.push(b'\n');
+        want.push((oid, body));
+    }
+    let mut failed: Vec<&str> = Vec::new();
+    match git_ai::authorship::rebase_authorship::verif_hooks::parse_cat_file_batch_output_with_oids(&data) {
+        Err(_) => failed.push("K4-reader-accepts-git-output"),
+        Ok(m) => {
+            let mut keys: Vec<&String> = m.keys().collect();
+            keys.sort();
+            let mut wk: Vec<&String> = want.iter().map(|x| &x.0).collect();
+            wk.sort();
+            if keys != wk {
+                failed.push("K4-exactly-the-present-blobs");
+            } else if want.iter().any(|(o, b)| m.get(o).map(|s| s.as_bytes()) != Some(b.as_slice())) {
+                failed.push("K4-contents-byte-for-byte");
+            }
+        }
+    }
+    json!({"failed": failed})
+}
+
+/// K3: {original: [line ids], authors: {id: session}, running: [...], running_authors: {...}, final: [...]}
+/// lines are `a1`, `b2`, ... ; returns the session of every line of the new content
+pub fn replay_step(v: &Value) -> Value {
+    use git_ai::authorship::attribution_tracker::{Attribution, LineAttribution};
+    use git_ai::authorship::virtual_attribution::VirtualAttributions;
+    use std::collections::HashMap;
+    let text_of = |id: &str| -> String {
+        match id {
+            "a" => "a1\n",
+            "b" => "b2\n",
+            "c" => "c3\n",
+            _ => "d4\n",
+        }
+        .to_string()
+    };
+    let ids = |k: &str| -> Vec<String> { v[k].as_array().unwrap().iter().map(|x| x.as_str().unwrap().to_string()).collect() };
+    let build = |seq: &[String], who: &Value| -> (String, Vec<Attribution>, Vec<LineAttribution>) {
+        let mut text = String::new();
+        let mut chars = Vec::new();
+        let mut lines = Vec::new();
+        for (i, id) in seq.iter().enumerate() {
+            let t = text_of(id);
+            if let Some(a) = who.get(id).and_then(|x| x.as_str()) {
+                chars.push(Attribution::new(text.len(), text.len() + t.len(), a.to_string(), 1));
+                lines.push(LineAttribution::new(i as u32 + 1, i as u32 + 1, a.to_string(), None));
+            }
+            text.push_str(&t);
+        }
+        (text, chars, lines)
+    };
+    let dir = std::env::temp_dir().join(format!("vreplay-c02k3-{}", std::process::id()));
+    let _ = std::fs::remove_dir_all(&dir);
+    std::fs::create_dir_all(&dir).unwrap();
+    let st = std::process::Command::new("git").args(["init", "-q", "."]).current_dir(&dir).output().unwrap();
+    assert!(st.status.success());
+    let repo = git_ai::git::find_repository_in_path(dir.to_str().unwrap()).expect("repo");
+    let (ot, oc, ol) = build(&ids("original"), &v["authors"]);
+    let mut oa = HashMap::new();
+    oa.insert("f".to_string(), (oc, ol));
+    let mut ocon = HashMap::new();
+    ocon.insert("f".to_string(), ot);
+    let original = VirtualAttributions::new(repo, "orig".to_string(), oa, ocon, 1);
+    let (rt, rc, rl) = build(&ids("running"), &v["running_authors"]);
+    let mut attributions = HashMap::new();
+    attributions.insert("f".to_string(), (rc, rl));
+    let mut contents = HashMap::new();
+    contents.insert("f".to_string(), rt);
+    let fin = ids("final");
+    let mut final_state = HashMap::new();
+    final_state.insert("f".to_string(), fin.iter().map(|i| text_of(i)).collect::<String>());
+    let r = git_ai::authorship::rebase_authorship::verif_hooks::replay_step(&original, &mut attributions, &mut contents, final_state, 7);
+    let mut per_line: Vec<Option<String>> = vec![None; fin.len()];
+    if let Some((_, las)) = attributions.get("f") {
+        for la in las {
+            for l in la.start_line..=la.end_line {
+                if (l as usize) >= 1 && (l as usize) <= fin.len() && la.author_id != "human" {
+                    per_line[l as usize - 1] = Some(la.author_id.clone());
+                }
+            }
+        }
+    }
+    let _ = std::fs::remove_dir_all(&dir);
+    json!({"ok": r.is_ok(), "authors": per_line})
+}
